@@ -231,6 +231,23 @@ def _mk_operand(env, name, vs, kind, kinds):
     return rel, (lambda a: tab(**{v.name: a[v.name] for v in vs}))
 
 
+def _operand_unchanged(env, label, u, vs, f):
+    """frame: an operand still has its scope and evaluates as before on every assignment of its own scope"""
+    ok = _names(u.dimensions) == _names(vs)
+    env.prove(label, ok, detail=lambda: (_names(u.dimensions), _names(vs)))
+    if not ok:
+        return
+    for a in fx.assignments(vs):
+        got = env.call(lambda: u(**a)) if vs else env.call(lambda: u.get_value_for_assignment({}))
+        if isinstance(got, Raised):
+            env.prove(label, False, detail=lambda: got.tb)
+            return
+        if hasattr(got, "item") and not is_sym(got):
+            got = got.item()
+        exp = f(a)
+        env.prove(label, eq(got, exp), detail=lambda: (a, got, exp))
+
+
 def h_join(env):
     from pydcop.dcop import relations as R
     from pydcop.dcop.objects import Variable
@@ -263,6 +280,9 @@ def h_join(env):
             env.prove("join.result-evaluates", False, detail=lambda: got.tb)
             return
         env.prove("join.value-is-sum-on-every-assignment", eq(got, exp1 + exp2), detail=lambda: (a, got, exp1, exp2))
+    # frame: the operands are not modified by the join (DPOP joins the same constraint into several tables)
+    _operand_unchanged(env, "join.frame.first-operand-unchanged", u1, s1, f1)
+    _operand_unchanged(env, "join.frame.second-operand-unchanged", u2, s2, f2)
 
 
 _JOIN_SHAPES = [
@@ -324,6 +344,7 @@ def h_projection(env):
         if not rest and hasattr(got, "item"):
             got = got.item()
         env.prove("projection.cell-is-optimum-over-variable", eq(got, _opt(mode, vals)), detail=lambda: (a, got, vals, mode))
+    _operand_unchanged(env, "projection.frame.projected-relation-unchanged", u, pool, f)
 
 
 _PROJ = [
@@ -378,7 +399,12 @@ def h_assignment_cost(env):
         if consider:
             # variable cost needs the value in the assignment itself (code reads assignment[v_name])
             env.assume(False)
+    given_before, cons_before = dict(given), list(cons)
     r = env.call(R.assignment_cost, given, cons, consider, **extra)
+    # frame: the caller's assignment and constraint list are observed, not modified (algorithms call it once per candidate value)
+    env.prove("assignment_cost.frame.assignment-and-constraint-list-unchanged",
+              list(given.items()) == list(given_before.items()) and len(cons) == len(cons_before) and all(a is b for a, b in zip(cons, cons_before)),
+              detail=lambda: (given, given_before))
     if isinstance(r, Raised):
         env.prove("assignment_cost.no-raise", False, detail=lambda: r.tb)
         return
@@ -437,7 +463,9 @@ def h_solution_cost(env):
         full = dict(given)
         if ext:
             full["e"] = ext.value
+        full_before = dict(full)
         r = env.call(D.solution_cost, cons, allv, full, infinity)
+        env.prove("solution_cost.frame.assignment-unchanged", list(full.items()) == list(full_before.items()), detail=lambda: (full, full_before))
     else:
         # built the way pydcop.dcop.yamldcop.load_dcop builds a DCOP with external variables
         dcop = DCOP("t", "min")
@@ -445,7 +473,9 @@ def h_solution_cost(env):
         if ext:
             dcop.external_variables = {"e": ext}
         dcop._constraints = {c.name: c for c in cons}
+        given_before = dict(given)
         r = env.call(dcop.solution_cost, given, infinity)
+        env.prove("solution_cost.frame.assignment-unchanged", list(given.items()) == list(given_before.items()), detail=lambda: (given, given_before))
     if missing is not None:
         env.cover("incomplete")
         env.prove("solution_cost.incomplete-assignment-rejected-with-ValueError",
